@@ -188,11 +188,15 @@ func c09Run(c *fw.Case, env *fw.Env) *fw.Obs {
 				o.Ev("h2_stream_resets", 1)
 			}
 		}
-		if first.panicText != "" {
+		refusedShallow := first.panicText != "" && strings.HasSuffix(class, "/shallow-clone") && strings.Contains(first.panicText, "no remote found for table")
+		if first.panicText != "" && !refusedShallow {
 			o.Violate("panic/"+class+"/transport-error", "%v: %s", args, first.panicText)
 			return o
 		}
-		if first.err != nil {
+		if refusedShallow {
+			// a push from a shallow clone is refused - by a panic, Corrections 20 - before anything is sent; the judged
+			// attempt below meets the same refusal
+		} else if first.err != nil {
 			o.Ev("first_attempts_interrupted", 1)
 			class += "/retry"
 		} else {
